@@ -46,7 +46,7 @@ def oracle(c, r, refout, single=None):
 
 
 def run(ctx, build):
-    per = 4 if ctx.tier == "quick" else 60
+    per = 4 if ctx.tier == "quick" else 200
     cs = gen(ctx, per)
     singles = []
     for c in cs:
